@@ -1,17 +1,28 @@
 from common import COMMON_TRUST
 
 PROP = {
-    "generated": ["HandlerFlags"],
+    "generated": ["HandlerFlags", "FlushTable"],
     "lean_modules": ["SwimVerif.Model.Handlers", "SwimVerif.Model.HandlersIO", "SwimVerif.Model.HandlersMon",
-                     "SwimVerif.Proofs.Handlers", "SwimVerif.Proofs.HandlersInv", "SwimVerif.Generated.HandlerFlags"],
+                     "SwimVerif.Model.HandlersFlush", "SwimVerif.Proofs.Handlers", "SwimVerif.Proofs.HandlersInv",
+                     "SwimVerif.Proofs.HandlersFlush", "SwimVerif.Generated.HandlerFlags",
+                     "SwimVerif.Generated.FlushTable"],
     "engines": [
         # lock-step: one request at a time, run to quiescence; model diff + monitor
         {"name": "handlers-seq", "crate": "core", "bin": "sv-c06", "machine": "c06",
-         "cases": {"quick": 48000, "thorough": 2400000}, "min_shard": 2000, "nontrivial_min_ops": 2},
+         "cases": {"quick": 40000, "thorough": 1800000}, "min_shard": 2000, "nontrivial_min_ops": 2},
         # bursts of requests on several lanes with suspended futures: the order in which the real agent task picks
         # them (tokio select!) is not modelled, the monitor decides the property on the trace alone
         {"name": "handlers-burst", "crate": "core", "bin": "sv-c06", "machine": "c06", "modes": ["monitor"],
-         "gen_args": ["burst"], "cases": {"quick": 24000, "thorough": 1200000}, "min_shard": 2000,
+         "gen_args": ["burst"], "cases": {"quick": 20000, "thorough": 900000}, "min_shard": 2000,
+         "nontrivial_min_ops": 2},
+        # the same agent run through the public Agent::run with the HARNESS as the runtime (AgentContext): lane
+        # outputs of 1..64 bytes read only on scripted steps (`rd`), sync requests and updates queueing up behind a
+        # write in flight (WriteResult::DataStillAvailable, late WriteComplete); lock-step: model diff + monitor
+        {"name": "handlers-slow", "crate": "core", "bin": "sv-c06", "machine": "c06", "gen_args": ["slow"],
+         "cases": {"quick": 16000, "thorough": 600000}, "min_shard": 2000, "nontrivial_min_ops": 2},
+        # ... with bursts of requests and sync requests in flight: monitor only
+        {"name": "handlers-slow-burst", "crate": "core", "bin": "sv-c06", "machine": "c06", "modes": ["monitor"],
+         "gen_args": ["slowburst"], "cases": {"quick": 8000, "thorough": 300000}, "min_shard": 2000,
          "nontrivial_min_ops": 2},
     ],
     "level_text": "Proof: for every handler program of the modelled language (effect/get/set/get-and_then-set/map "
@@ -23,16 +34,25 @@ PROP = {
                   "on_set prev new; on_update|on_remove|on_clear) => resume; a failure ends everything'. "
                   "Corollaries: true previous value, exactly once per change (previous slots always consumed), "
                   "failure stops the interrupted handlers, rank-decreasing lifecycles never reach the recursion "
-                  "bound, on_start first. Tied to the code by differential execution: the same program text is "
+                  "bound, on_start first. The write flush of the agent task (write_to_buffer of value/map/command/"
+                  "demand-map lanes, the WriteResult match regenerated from the sources, WriteComplete) is modelled: "
+                  "for value, map and command lanes no interleaving of flushes, write completions (the runtime reading "
+                  "any lane at any time) and write-side changes ever re-dispatches a lifecycle event (exactly once); "
+                  "only RequiresEvent (demand-map lanes) does. Lanes are found through lifecycle_item_ids (field "
+                  "names) whatever their external names. Tied to the code by differential execution: the same program text is "
                   "interpreted into real boxed handlers (public HandlerContext/HandlerActionExt API) in a derived "
                   "agent + lifecycle run by the REAL agent task (AgentModel via AgentRouteTask::run_agent) with "
                   "commands injected from the runtime side; effect trace, agent status and lane values compared "
-                  "with the model; a Lean monitor decides the property on the implementation trace alone.",
+                  "with the model; a Lean monitor decides the property on the implementation trace alone. Four of "
+                  "the five lanes of the agent are renamed (#[item(name)], #[item(convention)]); sync requests are "
+                  "sent; in the slow engines the harness is the runtime (AgentContext) and reads the lanes' small "
+                  "output channels only on scripted steps.",
     "level_note": "The derive macros, the runtime task, tokio and the byte channels are exercised, not modelled; the "
                   "order in which the agent task picks simultaneously ready inputs (tokio select!) is sampled "
                   "(burst engine, monitor only), the theorem covers each handler chain. The DecodeAndCommand / "
                   "DecodeAndSet wrappers of runtime requests, demand/supply/join/http lanes, downlinks and "
-                  "send_command are outside the model. Integers are unbounded in the model (i64 in the harness; "
+                  "send_command are outside the model; demand-map lanes (the only RequiresEvent "
+                  "users) are modelled at the write flush only and not exercised. Integers are unbounded in the model (i64 in the harness; "
                   "generated values stay small).",
     "trusted_base": COMMON_TRUST + [
         "modelled, not verified: RefCell/Cell lane stores (each handler step is atomic: one agent = one task), "
@@ -44,6 +64,7 @@ PROP = {
     "assumptions": ["one agent runs in one task (handlers are never stepped concurrently)",
                     "the harness lifecycle wraps every lifecycle handler in enter/exit effects and precedes every "
                     "modifying primitive by an intent effect; the model contains the same wrappers"],
-    "rule": "cases are agent lifetimes (a generated lifecycle of 14 handler programs + 1..6 requests/bursts + stop) "
+    "rule": "cases are agent lifetimes (a generated lifecycle of 14 handler programs + 1..6 requests/bursts, or 2..7 "
+            "requests / sync requests / reads of the lane outputs on the slow rig, + stop) "
             "from one SplitMix64 seed; distinct = distinct op sequence (sha1), non-trivial = at least 2 ops",
 }
